@@ -2,6 +2,7 @@ import RosuModel.Lemmas.GenStateTaiko
 import RosuModel.Lemmas.GenStateOsu
 import RosuModel.Lemmas.GenStateCatch
 import RosuModel.Lemmas.GenStateMania2
+import RosuModel.Lemmas.GenStateManiaSearch3
 
 /-!
 # C12 — generated score states are consistent, stable and what `calculate()` uses
@@ -571,11 +572,19 @@ example : (@catchGenRaw Nat natOps ⟨5, 3, 4⟩ ⟨some 1, none, none, none, no
 /-! ## osu!mania
 
 Judgements: `maniaJ c` = `min(passed, n_objects)`, plus `n_hold_notes` for non-classic lazer scores
-(`maniaJ0`/`maniaJ` are defined next to the lemmas).  Totality, the miss bound and "at least as many
-results as judgements" are proved for **every** arm including the nested accuracy search; the
-clauses that need the exact outcome of the nested search (`ManiaSearchArm b`: accuracy given and at
-least two hit results unknown) are proved for all other arms and are *partial* for that arm (there
-they rest on the exhaustive model/implementation correspondence and the direct oracle). -/
+(`maniaJ0`/`maniaJ` are defined next to the lemmas).  Every clause is proved for **every** arm,
+including the nested accuracy search (`ManiaSearchArm b`: accuracy given and at least two hit
+results unknown; mania/performance/mod.rs `generate_state`, arm `_`), for every `NumOps` instance:
+the proofs use nothing about the float arithmetic except that the loop bounds are clamped to the
+objects still free (`cmp::min(…, remaining)`), that provided results are pinned
+(`min_remaining(n)`), and that the last open result is computed as the remainder / receives the
+`total_hits < n_objects` fill (`Lemmas/GenStateManiaSearch*.lean`).
+
+Unlike osu!/taiko, "a candidate was accepted" is needed for **one** thing only: a provided `n50`
+in the search arm.  The initial `best` sets `n50 = n_remaining − (n320 + n300 + n200 + n100)` even
+when `n50` is provided, so if every `curr_dist < best_dist` is false (NaN accuracy) the provided
+`n50` is overwritten (`mania_n50_kept_needs_accepted`).  The sum clause and idempotence hold
+whether or not a candidate was accepted, because the initial `best` is itself consistent. -/
 
 /-- No checked `u32` subtraction of `ManiaPerformance::generate_state` fails — all arms, including
 the nested search and the priority shifts. -/
@@ -601,12 +610,21 @@ theorem mania_misses_le (c : ManiaCfg) (b : ManiaB R) : (maniaGenRaw c b).state.
 theorem mania_total_ge_judgements (c : ManiaCfg) (b : ManiaB R) :
     maniaJ c ≤ (maniaGenRaw c b).state.totalHits := maniaGenRaw_total_ge c b
 
+/-- Every generated hit result is at most `judgements − misses` — all arms, accepted or not. -/
+theorem mania_results_le (c : ManiaCfg) (b : ManiaB R) :
+    let s := (maniaGenRaw c b).state
+    s.n320 ≤ maniaJ c - s.misses ∧ s.n300 ≤ maniaJ c - s.misses ∧ s.n200 ≤ maniaJ c - s.misses ∧
+    s.n100 ≤ maniaJ c - s.misses ∧ s.n50 ≤ maniaJ c - s.misses := by
+  have hs := maniaGenRaw_spec c b
+  rw [← maniaGenRaw_misses c b] at hs
+  exact ⟨hs.le320, hs.le300, hs.le200, hs.le100, hs.le50⟩
+
 /-- The hit results add up to the number of judgements whenever the provided ones do not exceed it
-(arms without nested search). -/
-theorem mania_sum_eq_judgements_partial (c : ManiaCfg) (b : ManiaB R) (hns : ¬ ManiaSearchArm b)
+— **all arms**, including the nested accuracy search, whether or not a candidate was accepted. -/
+theorem mania_sum_eq_judgements (c : ManiaCfg) (b : ManiaB R)
     (hfit : maniaProvided b + b.misses.getD 0 ≤ maniaJ c) :
     (maniaGenRaw c b).state.totalHits = maniaJ c := by
-  apply (maniaGenRaw_ns_spec c b hns).1.sum_eq
+  apply (maniaGenRaw_spec c b).sum_eq
   have := optMin_le_getD b.misses (maniaJ0 c)
   omega
 
@@ -615,30 +633,66 @@ def ManiaFits (c : ManiaCfg) (b : ManiaB R) : Prop :=
   b.misses.getD 0 ≤ maniaJ0 c ∧ maniaProvided b + b.misses.getD 0 ≤ maniaJ c ∧
   (noneCount b = 0 → maniaProvided b + b.misses.getD 0 = maniaJ c)
 
-/-- Provided results that jointly fit are kept unchanged (arms without nested search). -/
-theorem mania_provided_kept_partial (c : ManiaCfg) (b : ManiaB R) (hns : ¬ ManiaSearchArm b)
-    (hfit : ManiaFits c b) :
+/-- Provided results that jointly fit are kept unchanged — **all arms**.  `n320`, `n300`, `n200`,
+`n100` and the misses: unconditionally; `n50`: when a candidate was accepted (always the case
+outside the nested search, `mania_accepted_outside_search`). -/
+theorem mania_provided_kept (c : ManiaCfg) (b : ManiaB R) (hfit : ManiaFits c b) :
     let s := (maniaGenRaw c b).state
     (∀ n, b.n320 = some n → s.n320 = n) ∧ (∀ n, b.n300 = some n → s.n300 = n) ∧
     (∀ n, b.n200 = some n → s.n200 = n) ∧ (∀ n, b.n100 = some n → s.n100 = n) ∧
-    (∀ n, b.n50 = some n → s.n50 = n) ∧ (∀ n, b.misses = some n → s.misses = n) := by
+    ((maniaGenRaw c b).accepted = true → ∀ n, b.n50 = some n → s.n50 = n) ∧
+    (∀ n, b.misses = some n → s.misses = n) := by
   obtain ⟨hm, hle, hall⟩ := hfit
-  have hs := (maniaGenRaw_ns_spec c b hns).1
+  have hs := maniaGenRaw_spec c b
   have hmis := optMin_eq_getD b.misses (maniaJ0 c) hm
   rw [hmis] at hs
   refine ⟨fun n h => hs.keep320 n h hle hall, fun n h => hs.keep300 n h hle hall,
     fun n h => hs.keep200 n h hle hall, fun n h => hs.keep100 n h hle hall,
-    fun n h => hs.keep50 n h hle hall, ?_⟩
+    fun ha n h => hs.keep50 n h ha hle hall, ?_⟩
   intro n h
   rw [maniaGenRaw_misses, hmis, h]
   rfl
 
-/-- Second call: the state generated from the updated builder is the same state (arms without
-nested search). -/
-theorem mania_gen_idempotent_partial (c : ManiaCfg) (b : ManiaB R) (hns : ¬ ManiaSearchArm b) :
+/-- What the nested-search arm does with provided results that do **not** jointly fit: each one is
+clamped to `judgements − misses` individually and otherwise left alone (`n50`: once a candidate
+was accepted). -/
+theorem mania_search_provided_clamped (c : ManiaCfg) (b : ManiaB R) (hs : ManiaSearchArm b) :
+    let s := (maniaGenRaw c b).state
+    (∀ n, b.n320 = some n → s.n320 = min n (maniaJ c - s.misses)) ∧
+    (∀ n, b.n300 = some n → s.n300 = min n (maniaJ c - s.misses)) ∧
+    (∀ n, b.n200 = some n → s.n200 = min n (maniaJ c - s.misses)) ∧
+    (∀ n, b.n100 = some n → s.n100 = min n (maniaJ c - s.misses)) ∧
+    ((maniaGenRaw c b).accepted = true → ∀ n, b.n50 = some n → s.n50 = min n (maniaJ c - s.misses)) := by
+  simp only [maniaGenRaw_misses]
+  exact maniaGenRaw_search_clamped c b hs
+
+/-- Outside the nested search the `accepted` bit is `true` (no search runs). -/
+theorem mania_accepted_outside_search (c : ManiaCfg) (b : ManiaB R) (hns : ¬ ManiaSearchArm b) :
+    (maniaGenRaw c b).accepted = true := maniaGenRaw_accepted_of_not_search c b hns
+
+/-- The version of "a provided `n50` that fits is kept" without the `accepted` hypothesis. -/
+def ManiaN50KeptUnconditional : Prop :=
+  ∀ (c : ManiaCfg) (b : ManiaB Unit), ManiaFits c b →
+    ∀ n, b.n50 = some n → (@maniaGenRaw Unit rejectAll c b).state.n50 = n
+
+/-- It is false: when no candidate is accepted (NaN accuracy) the initial `best`, whose `n50` is
+the remainder `n_remaining − (n320 + n300 + n200 + n100)`, is returned: 3 objects, `n50 = 1`
+provided, accuracy NaN ⇒ `n50 = 3`.  Replayed on the implementation with `accuracy(NaN)` by the
+harness (recorded as an observation: NaN is outside the documented `[0, 100]` domain). -/
+theorem mania_n50_kept_needs_accepted : ¬ ManiaN50KeptUnconditional := by
+  intro h
+  have := h ⟨3, 0, none, true, .best⟩ ⟨some (), none, none, none, none, some 1, none⟩
+    (by unfold ManiaFits maniaJ0 maniaJ maniaProvided noneCount passedU32; decide) 1 rfl
+  revert this
+  decide
+
+/-- Second call: the state generated from the updated builder is the same state — **all arms,
+unconditionally** (the second call takes the fully-provided arm; its clamps are no-ops because
+every result is at most `judgements − misses` and the total is at least the judgements). -/
+theorem mania_gen_idempotent (c : ManiaCfg) (b : ManiaB R) :
     maniaGenRaw c (b.update (maniaGenRaw c b).state) =
       { state := (maniaGenRaw c b).state, accepted := true, ok := true } := by
-  have hs := (maniaGenRaw_ns_spec c b hns).1
+  have hs := maniaGenRaw_spec c b
   have hmis := maniaGenRaw_misses c b
   rw [← hmis] at hs
   apply maniaGenRaw_all_given c _ _ rfl rfl rfl rfl rfl rfl
@@ -650,26 +704,29 @@ theorem mania_gen_idempotent_partial (c : ManiaCfg) (b : ManiaB R) (hns : ¬ Man
   · exact hs.le50
   · exact maniaGenRaw_total_ge c b
 
-theorem mania_gen_twice_partial (c : ManiaCfg) (b : ManiaB R) (hns : ¬ ManiaSearchArm b) (s : ManiaState)
+/-- `generate_state` twice gives the same state (and leaves the builder as the first call did). -/
+theorem mania_gen_twice (c : ManiaCfg) (b : ManiaB R) (s : ManiaState)
     (b' : ManiaB R) (h : maniaGen c b = .ok (s, b')) : maniaGen c b' = .ok (s, b') := by
   unfold maniaGen at h
   simp only [mania_gen_total, if_true, Res.ok.injEq, Prod.mk.injEq] at h
   obtain ⟨hs, hb⟩ := h
   subst hs; subst hb
   unfold maniaGen
-  rw [mania_gen_idempotent_partial c b hns]
+  rw [mania_gen_idempotent c b]
   simp [ManiaB.update]
 
-/-- `calculate()` returns exactly the result of supplying the generated state explicitly (arms
-without nested search). -/
-theorem mania_calculate_eq_explicit_state_partial {Out : Type} (perfCalc : ManiaCfg → ManiaState → Out)
-    (c : ManiaCfg) (b : ManiaB R) (hns : ¬ ManiaSearchArm b) :
+/-- `calculate()` returns exactly the result of supplying the generated state explicitly
+(`.state(s)` is `ManiaB.update`), for any calculator `perfCalc` of attributes/mods and state —
+all arms, unconditionally. -/
+theorem mania_calculate_eq_explicit_state {Out : Type} (perfCalc : ManiaCfg → ManiaState → Out)
+    (c : ManiaCfg) (b : ManiaB R) :
     maniaCalculate perfCalc c b = maniaCalculate perfCalc c (b.update (maniaGenRaw c b).state) := by
   unfold maniaCalculate maniaGen
-  rw [mania_gen_idempotent_partial c b hns]
+  rw [mania_gen_idempotent c b]
   simp [mania_gen_total, Res.map]
 
-/-- non-vacuity: the non-search arms are inhabited with fitting values, and the search arm exists -/
+/-- non-vacuity: both kinds of arm are inhabited with fitting values; an accepting nested search
+with a provided `n200` and `n50` exists (instance `natOps`) and keeps them -/
 example : ¬ @ManiaSearchArm Nat ⟨some 1, some 1, some 2, some 0, some 0, none, some 1⟩ := by
   unfold ManiaSearchArm noneCount
   decide
@@ -678,8 +735,15 @@ example : @ManiaFits Nat ⟨6, 2, none, false, .best⟩ ⟨some 1, some 1, some 
   unfold ManiaFits maniaJ0 maniaJ maniaProvided noneCount passedU32
   decide
 
-example : @ManiaSearchArm Nat ⟨some 1, none, none, none, none, none, some 1⟩ := by
-  unfold ManiaSearchArm noneCount
+example : @ManiaSearchArm Nat ⟨some 1, none, none, some 2, none, some 1, some 1⟩ ∧
+    @ManiaFits Nat ⟨6, 2, none, false, .worst⟩ ⟨some 1, none, none, some 2, none, some 1, some 1⟩ := by
+  unfold ManiaSearchArm ManiaFits maniaJ0 maniaJ maniaProvided noneCount passedU32
+  decide
+
+example : (@maniaGenRaw Nat natOps ⟨6, 2, none, false, .worst⟩ ⟨some 1, none, none, some 2, none, some 1, some 1⟩).accepted = true ∧
+    (@maniaGenRaw Nat natOps ⟨6, 2, none, false, .worst⟩ ⟨some 1, none, none, some 2, none, some 1, some 1⟩).state.n200 = 2 ∧
+    (@maniaGenRaw Nat natOps ⟨6, 2, none, false, .worst⟩ ⟨some 1, none, none, some 2, none, some 1, some 1⟩).state.n50 = 1 ∧
+    (@maniaGenRaw Nat natOps ⟨6, 2, none, false, .worst⟩ ⟨some 1, none, none, some 2, none, some 1, some 1⟩).state.totalHits = 8 := by
   decide
 
 end Rosu.GenState
